@@ -2604,12 +2604,20 @@ class Tree:
         """
         Call into the fast but limited C implementation of the newick conversion.
         """
-        root_time = max(1, self.time(root))
-        max_label_size = math.ceil(math.log10(self.tree_sequence.num_nodes))
-        single_node_size = (
-            5 + max_label_size + math.ceil(math.log10(root_time)) + precision
-        )
-        buffer_size = 1 + single_node_size * self.tree_sequence.num_nodes
+        ts = self.tree_sequence
+        # Labels are node IDs (or ID + 1 for the legacy labels).
+        max_label_size = len(str(ts.num_nodes))
+        # A branch below root is never longer than time(root) - min(node time),
+        # which is at most twice the largest absolute time. Node times can be
+        # negative or smaller than one, so the root time alone does not bound
+        # the number of integer digits. Allow one digit for the doubling and one
+        # for values that round up to the next power of ten.
+        max_abs_time = max(1.0, abs(self.time(root)), abs(float(ts.nodes_time.min())))
+        max_integer_digits = math.floor(math.log10(max_abs_time)) + 3
+        # Each node writes at most "(", "n<label>", ":<digits>.<precision>" and
+        # one of "," or ")"; the string ends with ";" and a NULL byte.
+        single_node_size = 6 + max_label_size + max_integer_digits + precision
+        buffer_size = 2 + single_node_size * ts.num_nodes
         return self._ll_tree.get_newick(
             precision=precision,
             root=root,
